@@ -8,7 +8,7 @@ breezy/bzr/workingtree.py (remove, _move, revert via transform), breezy/transfor
 breezy/git/workingtree.py (_flush, _rename_one), breezy/mutabletree.py, breezy/workingtree.py.
 
 T2 (the statement is the correspondence): random operation sequences —
-mkdir, add, remove(keep_files | force), rename_one, move, file / symbolic-link creation,
+mkdir, add, remove(keep_files | force), unversion, rename_one, move, file / symbolic-link creation,
 content edits and chmod on disk, commit, revert(backups=False | True) of the whole tree,
 revert([file], backups=False | True), re-open — are generated
 *adaptively* from the observed state of a real working tree (2a dirstate and
@@ -42,7 +42,7 @@ is_versioned / path2id / stored_kind of the live tree object agree with
 all_versioned_paths and with a freshly opened tree ("re-open is the identity on
 every query"); after commit the status is empty; after revert (with and without backups)
 the listing equals the listing at the last commit — contents AND executable bits — and the
-status is empty; revert destroys no content (what an unversioned file held is still on disk,
+status is empty; listing, status and queries of the tree never raise, whatever the operations were; revert destroys no content (what an unversioned file held is still on disk,
 and with backups=True so is what every versioned file held); after revert([p]) exactly the
 entry of p is the committed one, every other versioned entry and every other object on disk
 is unchanged, and with backups a new `p.~N~` holds the content and mode of the edited file;
@@ -63,6 +63,24 @@ known_findings.json):
      then "renames it back", which moves unversioned files of that directory into the root)
  git-revert-raises-after-remove-keep                (git: revert raises KeyError when a committed file was removed with
      keep_files and its directory is no longer versioned)
+ bzr-unversion-directory-with-versioned-grandchildren (bzr, NEW, not yet triaged: DirStateWorkingTree.unversion of a directory
+     with a versioned path two or more levels below it clears only the directory's own dirblock - `block[0][len(path)] == "/"`
+     compares an int with a str - so iter_changes raises AssertionError "Could not find target parent in wt" (committed) or
+     the grandchildren stay versioned without parents (uncommitted); one-line fix in
+     /var/tmp/imp-C09/fix_bzr_unversion_nested_directory.diff, repro /var/tmp/imp-C09/repro_bzr_unversion_nested_directory.py)
+ bzr-revert-duplicate-key-entry-moved-out-of-removed-directory (bzr, NEW, not yet triaged: commit e/a; rename_one e/a d;
+     remove e (--keep or --force); revert() raises DuplicateKey: _alter_files makes two transform ids for the file id of `e`
+     when the record of the moved entry comes before the record of the directory; small fix in
+     /var/tmp/imp-C09/fix_bzr_revert_duplicate_key.diff, repro /var/tmp/imp-C09/repro_bzr_revert_duplicate_key.py)
+ git-revert-duplicate-resolution-sorts-transform-ids-as-strings (git, NEW, not yet triaged: a committed directory with a file
+     in it is unversioned but kept on disk, so revert finds directory AND file in the way; with >= 10 transform ids
+     (about 6 more objects in the tree) the string sort `new-10` < `new-4` in _duplicate_entries makes resolve_duplicate
+     rename the NEW file: `c/a/a.moved` ends up versioned, `c/a/a` not; repro /var/tmp/imp-C09/repro_git_revert_nested_in_the_way.py)
+ git-revert-non-directory-at-path-of-basis-directory (git, NEW, not yet triaged: a file / link - unversioned, or versioned
+     e.g. by a rename - sits where the last commit has a directory that was renamed away or removed: revert takes it for
+     the directory (same path = same transform id) and leaves the directory's contents below `<name>.moved.new` /
+     `<name>.new`, wrongly versioned or not versioned at all, status not empty; bzr trees handle it with `.moved`;
+     repro: /var/tmp/imp-C09/repro_git_revert_non_directory_at_dir_path.py)
 Found by this check and FIXED in /repo (no family any more: a regression is a plain VIOLATION; the minimal
 sequences stay in corpus/C09 and run first):
  1f6467c add of a path below a directory that was removed from versioning but is still in the basis succeeded
@@ -87,8 +105,11 @@ Mutants tried (scratch worktree, known findings treated as known):
     operation takes its own lock)                                                  -> oracle, minimal ['lock', 'mkfile:a', 'add:a']
  m12 _alter_files: backup placed in the directory of the TARGET path               -> T2 on the disk listing (rename + edit + revert:b)
  m13 _alter_files: `backups or target_kind is None` -> `backups`                    -> oracle (revert deleted files outside the basis)
- m1 DirStateWorkingTree.unversion children / m3 MutableGitIndexTree._unversion_path directory branch: NOT reached
-    by the operations generated here (remove() goes through apply_inventory_delta / per-file unversion) - not caught
+ m1 DirStateWorkingTree.unversion: only the dirblock of the directory itself is cleared, not those of its
+    descendants: this turned out to be what the UNCHANGED code does (finding bzr-unversion-directory-with-versioned-grandchildren)
+ m3b MutableGitIndexTree.unversion / _unversion_path: `_versioned_dirs = None` dropped -> oracle (live object vs re-opened tree)
+ m3 _unversion_path directory branch: prefix test without the separator (`startswith(subpath)`): NOT caught - needs a
+    versioned sibling whose name extends the directory's name (only `x.moved` / `x.~N~` names do here)
  harmless (stays clean): reordered comparison and reworded message in _move_entry; reordered / negated condition of the
     final set_executability in _alter_files
 """
@@ -99,7 +120,7 @@ from vlib import env
 
 THEOREMS = [
     "reopen_id", "run_append", "step_error_unchanged", "mkdir_error_no_leftover", "rename_missing_source_fails",
-    "changesOf_self", "commit_status_empty", "status_sound_complete", "revert_restores", "revert_only_basis",
+    "unversion_not_versioned_fails", "unversion_eq_remove_keep", "changesOf_self", "commit_status_empty", "status_sound_complete", "revert_restores", "revert_only_basis",
     "revert_backups_same_versioned", "step_revert_ok", "step_revert_basis", "step_revert_only_basis",
     "step_revert_restores_bzr", "step_revert_restores_git_nondir", "step_revert_restores_git_kept",
     "step_revert_restores_git", "step_revert_status_empty_bzr", "step_revert_status_empty_git",
@@ -352,13 +373,15 @@ def status_paths(changes, committed, current):
                 mod.add(p[0] or ".")
     cb = {l.split("|")[0]: l for l in committed}
     cw = {l.split("|")[0]: l for l in current}
-    explicit = {(p[0] or ".") for p, cc, v, k, e in changes if p[0] is not None} | {
-        (p[1] or ".") for p, cc, v, k, e in changes if p[1] is not None}
+    # a child with a record of its own is handled by that record: as a source for the old path, as a
+    # target for the new one (a NEW object at the old path of a child does not cancel the implied removal)
+    explicit_src = {(p[0] or ".") for p, cc, v, k, e in changes if p[0] is not None}
+    explicit_tgt = {(p[1] or ".") for p, cc, v, k, e in changes if p[1] is not None}
     for q, k in implied_minus.items():
-        if q not in explicit:
+        if q not in explicit_src:
             minus.setdefault(q, k)
     for q, k in implied_plus.items():
-        if q not in explicit:
+        if q not in explicit_tgt:
             plus.setdefault(q, k)
     for p in set(minus) & set(plus):
         del minus[p], plus[p]
@@ -417,13 +440,50 @@ def git_dir_holds_whole_basis(committed, current):
 
 
 def git_file_at_basis_directory(committed, listing, disk):
-    """an unversioned object that is not a directory sits at a path where the last commit has a
-    directory (the directory was renamed away or removed): git's revert takes that object for the
-    directory (same path = same transform id), resolves a 'non-directory parent' conflict and ends
-    with the contents versioned below `<name>.moved.new`"""
+    """an object that is not a directory (unversioned, or versioned: e.g. a file renamed to that name) sits
+    at a path where the last commit has a directory (the directory was renamed away or removed): git's
+    revert takes that object for the directory (same path = same transform id), resolves a 'non-directory
+    parent' conflict and ends with the contents below `<name>.new` / `<name>.moved.new`, versioned wrongly
+    or not at all"""
     cdirs = {l.split("|")[0] for l in committed if l.split("|")[1] == "directory"}
+    return any(k != "d" and q in cdirs for q, k in disk)
+
+
+def git_nested_in_the_way(committed, listing, disk):
+    """a committed file AND its committed parent directory are both on disk but not versioned (the subtree was
+    removed with keep_files / unversioned): revert finds two levels of objects in the way; the existing file is
+    re-parented with its directory, so resolve_duplicate sees 'path changed' on both candidates and falls back on
+    the order of the transform ids, which _duplicate_entries sorts as STRINGS (`new-10` < `new-4`): with ten or
+    more transform ids the NEW file is the one renamed to `<name>.moved` and stays versioned under that name"""
+    ctype = {l.split("|")[0]: l.split("|")[1] for l in committed}
     ver = {l.split("|")[0] for l in listing}
-    return any(k != "d" and q in cdirs and q not in ver for q, k in disk)
+    dk = dict(disk)
+    for q, k in ctype.items():
+        if k != "directory" and "/" in q and q not in ver and dk.get(q) in ("f", "l"):
+            par = q.rsplit("/", 1)[0]
+            if ctype.get(par) == "directory" and par not in ver and dk.get(par) == "d":
+                return True
+    return False
+
+
+def bzr_moved_out_of_removed_directory(status):
+    """(bzr status records) a committed directory is no longer versioned while an entry that the last commit has
+    below it is still versioned somewhere else: revert has to re-create the directory AND move the entry back below
+    it; when the entry's record comes first, _alter_files makes two transform ids for the directory's file id
+    (trans_id_file_id for the child's parent, assign_id for the directory itself) and resolve_unversioned_parent
+    raises DuplicateKey"""
+    recs = [r.split("|") for r in status]
+    gone = [r[0] for r in recs if r[3] == "TF" and r[4] == "directory"]
+    return any(r[3] == "TT" and any(r[0].startswith(d + "/") for d in gone) for r in recs)
+
+
+def bzr_unversion_deep(fmt, op, listing):
+    """DirStateWorkingTree.unversion of a directory that has a versioned path two or more levels below it:
+    only the dirblock of the directory itself is cleared (the test for deeper blocks compares a byte of a
+    bytes object with the str "/"), so the grandchildren stay in the dirstate without their parents"""
+    if fmt != "bzr" or op[0] != "unversion" or not op[1]:
+        return False
+    return any(l.split("|")[0].startswith(op[1] + "/") and l.split("|")[0].count("/") >= op[1].count("/") + 2 for l in listing)
 
 
 def enc_op(op):
@@ -455,7 +515,7 @@ def enc_op(op):
 
 OPS = ["mkfile", "mkdir", "add", "remove", "rename", "move", "write", "chmod", "commit", "revert", "reopen", "mklink", "burst",
        "revertp", "unversion"]
-WEIGHTS = [8, 7, 12, 7, 12, 6, 9, 7, 7, 9, 4, 3, 13, 8, 4]
+WEIGHTS = [8, 7, 12, 7, 12, 6, 9, 7, 7, 9, 4, 3, 13, 8, 6]
 
 
 def fresh_content(rng, avoid=None, st=None):
@@ -574,8 +634,14 @@ def gen_op(rng, listing, disk, vacated=(), committed=(), st=None, fmt="bzr", sta
             return ("mkdir", child(""))
         return ("remove", rng.choice(ver_paths), rng.choice(["k", "k", "f"]))
     if k == "unversion":
+        deep = [d for d in ver_dirs if d and any(q.startswith(d + "/") and q.count("/") > d.count("/") + 1 for q in ver_paths)]
+        if deep and rng.random() < 0.5:
+            # a directory with versioned grandchildren
+            return ("unversion", rng.choice(deep))
+        if not ver_paths and unver and rng.random() < 0.8:
+            return ("add", rng.choice(unver))
         if ver_paths and rng.random() < 0.85:
-            return ("unversion", rng.choice(ver_paths))
+            return ("unversion", rng.choice([d for d in ver_dirs if d] or ver_paths) if rng.random() < 0.4 else rng.choice(ver_paths))
         return ("unversion", rng.choice(unver) if unver and rng.random() < 0.7 else rng.choice(["", "zz"]))
     if k == "rename":
         if not ver_paths:
@@ -669,8 +735,15 @@ def setup_prefix(rng, st):
     if rng.random() < 0.7:
         d = names.pop()
         out.append(("mkdir", d))
-    for n in names[:rng.randint(2, 3)]:
+    sub = None
+    if d is not None and rng.random() < 0.4:
+        # a second level
+        sub = d + "/" + rng.choice(NAMES)
+        out.append(("mkdir", sub))
+    for k, n in enumerate(names[:rng.randint(2, 3)]):
         p = (d + "/" + n) if d is not None and rng.random() < 0.5 else n
+        if sub is not None and k == 0 and p != sub:
+            p = sub + "/" + n
         if rng.random() < 0.15:
             out.append(("mklink", p, "zz"))
         else:
@@ -758,15 +831,44 @@ def run_real(fmt, ops=None, rng=None, length=0, gen=True):
                 skipped += 1
                 continue
             disk_l = r.disk_listing() if op[0] in ("revert", "revertp") else None
+            n0 = len(problems)
+            step_family = "bzr-unversion-directory-with-versioned-grandchildren" if bzr_unversion_deep(fmt, op, listing) else None
             res = r.do(op)
-            new_listing = r.listing()
-            ch = r.changes()
-            new_disk = r.disk()
-            new_disk_l = r.disk_listing()
-            sb = status_bzr(ch)
-            st = sb if fmt == "bzr" else status_paths(ch, committed, new_listing)
-            # ---- oracle ----------------------------------------------------
             where = "step %d %r" % (i - 1, op)
+            try:
+                new_listing = r.listing()
+                ch = r.changes()
+                new_disk = r.disk()
+                new_disk_l = r.disk_listing()
+                sb = status_bzr(ch)
+                st = sb if fmt == "bzr" else status_paths(ch, committed, new_listing)
+                for l in listing + new_listing:
+                    known.add(l.split("|")[0])
+                for q, k in disk + new_disk:
+                    known.add(q)
+                for a in op[1:3]:
+                    if isinstance(a, str) and a and not a.startswith("zz") and len(a) < 40 and op[0] not in ("mkfile", "write"):
+                        known.add(a)
+                if op[0] in ("mkfile", "write"):
+                    known.add(op[1])
+                for q in list(known):
+                    known.update(_prefixes(q))
+                kp = sorted(known)
+                live = r.queries(kp)
+                fresh = live if r.locked() else r.queries(kp, fresh=True)
+            except (KeyboardInterrupt, SystemExit):
+                raise
+            except BaseException as e:
+                # listing / status / queries of the tree must never raise, whatever the operations were
+                import traceback
+                tb = traceback.extract_tb(e.__traceback__)
+                problems.append((where, "observing the tree (all_versioned_paths / kind / iter_changes / path2id, live or re-opened) "
+                                        "raised %s: %s [%s]" % (type(e).__name__, str(e)[:120],
+                                                               "; ".join("%s:%s" % (os.path.basename(f.filename), f.name) for f in tb[-3:])),
+                                 "observe-raises", step_family))
+                done.append((list(op), res))
+                break
+            # ---- oracle ----------------------------------------------------
             if res != "ok" and op[0] in ("revert", "commit", "reopen"):
                 fam = None
                 on_disk = {q for q, k in disk}
@@ -774,6 +876,11 @@ def run_real(fmt, ops=None, rng=None, length=0, gen=True):
                         l.split("|")[1] == "file" and l.split("|")[0] not in {x.split("|")[0] for x in listing}
                         and l.split("|")[0] in on_disk for l in committed):
                     fam = "git-revert-raises-after-remove-keep"
+                if fam is None and fmt == "git" and op[0] == "revert" and git_file_at_basis_directory(committed, listing, disk):
+                    # (depending on what else changed the mis-resolved conflict ends in MalformedTransform)
+                    fam = "git-revert-non-directory-at-path-of-basis-directory"
+                if fmt == "bzr" and op[0] == "revert" and res == "err:DuplicateKey" and bzr_moved_out_of_removed_directory(prev_status):
+                    fam = "bzr-revert-duplicate-key-entry-moved-out-of-removed-directory"
                 problems.append((where, "%s raised %s" % (op[0], res), "must-not-raise", fam))
             elif res != "ok":
                 if new_listing != listing or sb != prev_status:
@@ -816,8 +923,10 @@ def run_real(fmt, ops=None, rng=None, length=0, gen=True):
                             sorted(set(new_listing) ^ set(committed))[:4],), "revert-restore",
                             "git-rename-detection-pairs-modified-file-with-added-copy"
                             if fmt == "git" and git_copy_of_modified(committed, listing) else
-                            "git-revert-unversioned-file-at-path-of-basis-directory"
-                            if fmt == "git" and git_file_at_basis_directory(committed, listing, disk) else None))
+                            "git-revert-non-directory-at-path-of-basis-directory"
+                            if fmt == "git" and git_file_at_basis_directory(committed, listing, disk) else
+                            "git-revert-duplicate-resolution-sorts-transform-ids-as-strings"
+                            if fmt == "git" and git_nested_in_the_way(committed, listing, disk) else None))
                     # unversioned files and files that were only added stay on disk
                     cb = {l.split("|")[0] for l in committed}
                     verp = {l.split("|")[0]: l.split("|")[1] for l in listing}
@@ -891,24 +1000,10 @@ def run_real(fmt, ops=None, rng=None, length=0, gen=True):
                 problems.append((where, "status says %r, the listings differ by %r" % (
                     sorted(set(got) - set(exp))[:4], sorted(set(exp) - set(got))[:4]), "status-sound-complete", fam))
             # every query agrees with all_versioned_paths, on the live object and after re-opening
-            for l in listing + new_listing:
-                known.add(l.split("|")[0])
-            for q, k in disk + new_disk:
-                known.add(q)
-            for a in op[1:3]:
-                if isinstance(a, str) and a and not a.startswith("zz") and len(a) < 40 and op[0] not in ("mkfile", "write"):
-                    known.add(a)
-            if op[0] in ("mkfile", "write"):
-                known.add(op[1])
-            for q in list(known):
-                known.update(_prefixes(q))
             vnow = {l.split("|")[0]: l.split("|")[1] for l in new_listing}
             for l in listing:
                 if l.split("|")[0] not in vnow:
                     vacated.add(l.split("|")[0])
-            kp = sorted(known)
-            live = r.queries(kp)
-            fresh = live if r.locked() else r.queries(kp, fresh=True)
             bad_live = [(q, live[q]) for q in kp if live[q][:2] != (q in vnow, q in vnow) or
                         (q in vnow and live[q][2] != vnow[q] and not vnow[q].startswith("!"))]
             bad_fresh = [(q, live[q], fresh[q]) for q in kp if live[q] != fresh[q]]
@@ -919,6 +1014,8 @@ def run_real(fmt, ops=None, rng=None, length=0, gen=True):
             elif bad_live:
                 problems.append((where, "is_versioned / path2id / stored_kind disagree with all_versioned_paths: %r (versioned: %r)" % (
                     bad_live[:3], sorted(vnow)), "query-consistency", None))
+            if step_family is not None:
+                problems[n0:] = [(w_, t_, s_, f_ or step_family) for w_, t_, s_, f_ in problems[n0:]]
             steps.append("%s@%s@%s@%s" % ("ok" if res == "ok" else "err", ";".join(new_listing) or "-", ";".join(st) or "-",
                                          ";".join(new_disk_l) or "-"))
             done.append((list(op), res))
